@@ -114,6 +114,17 @@ CLAIMED.update({
             "move ordering is a permutation (NewMoveList slot-wise copy, heap never grows, priorities do not modify moves). Numeric equality with "
             "minimax and PV optimality are not decided.",
             "DESIGN.md §3 C03", "CFG typestate (push/pop depth) + path enumeration over abstracted search events by abstract interpretation of go/ssa"),
+    "C11": ("other",
+            "Decides the structural clause 'every exact entry the search stores is the true search value of that position at that depth' as "
+            "necessary conditions on every enumerated path of the recursive search functions: a store with the exact bound stores a value that is "
+            "strictly inside the window the node was searched with on that path - an interior store only after some move raised alpha above the "
+            "incoming bound (chain of Less facts from the alpha parameter to the stored value), a leaf store only when alpha < value < beta is "
+            "known; nothing computed from a cut-short child is stored and the interior store is exact only after the move loop ran to exhaustion "
+            "(rules of C12, re-decided); a table hit ends a node only when the entry is exact and of exactly the requested depth. NOT decided: "
+            "the numeric transparency statement itself (same root score and first PV move with any table size over all positions, depths and "
+            "search sequences) - no sound static abstraction in reach; history-dependent values under a position-only key are excluded by the "
+            "property's own precondition.",
+            "DESIGN.md §9.8 C11", "path enumeration over abstracted search events; order facts (Score.Less) chained per path"),
     "C12": ("other",
             "Decides on every enumerated path: each recursive search function polls for cancellation first and does no work on the cancelled "
             "path; the public Search methods poll after the root call and return ErrHalted, never the child's score, when cancelled; between any "
@@ -211,15 +222,17 @@ CLAIMED.update({
 # from a neighbouring property); appended to the level text.
 ADDENDA = {
     "C01": " Also decided here (re-decided from C02/C06 because the generator and the legality filter rest on them): the castling-rights table CastlingRightsLost over all (From,To) classes, and the attack queries behind IsChecked/IsAttacked/IsAttackedBy/IsCheckMate.",
-    "C03": " The window clause reads, as corrected after defect F19: the child's bounds are negations of the parent's bounds translated by the inverse of the mate-distance increment, decided as the identity Negate(IncrementMateDistance(bound handed down)) = parent's bound on every abstract score region (R03-window). Also decided: the move loop is left early only on alpha >= beta or cancellation; no node returns on a cut-off before a move was tried or the mate/stalemate verdict produced; the score algebra of C09 including DecrementMateDistance (re-decided as R03-scores); MoveList.Next is empty-exact.",
+    "C03": " Hand-back: PopMove is the exact inverse of PushMove, the game result included (R08-inverse re-decided; defect F23). The window clause reads, as corrected after defect F19: the child's bounds are negations of the parent's bounds translated by the inverse of the mate-distance increment, decided as the identity Negate(IncrementMateDistance(bound handed down)) = parent's bound on every abstract score region (R03-window). Also decided: the move loop is left early only on alpha >= beta or cancellation; no node returns on a cut-off before a move was tried or the mate/stalemate verdict produced; the score algebra of C09 including DecrementMateDistance (re-decided as R03-scores); MoveList.Next is empty-exact.",
     "C04": " Also decided: every call of a halting Engine method in the command loop is preceded by the deactivation helper (a superseded search never gets a bestmove of its own; R16-supersede re-decided as R04-single); a go always halts what the engine still has registered before it launches.",
     "C05": " Also decided: the shape of HasInsufficientMaterial (piece sets of both colours, case split 2/3/4 and thresholds, the bishops' square colours told by a colour-complex mask - R05-dead, which exposed defect F18); that a forked board carries clock, counters and shared past (R05-fork); that the per-hash gate of the re-count is sound (C07's delta rule re-decided as R05-hashgate).",
     "C06": " IsCheckMate: 'not mate' is never decided for a side in check without consulting the legal moves.",
     "C09": " Also decided: DecrementMateDistance and IncrementMateDistance are mutually inverse (R09-decr).",
-    "C12": " Also decided: the mate/stalemate verdict (which writes the board's result) is produced only on paths where no move was pushed, so a halted search hands the game result back untouched.",
+    "C08": " The result clause reads, as corrected after defect F23: a take-back restores the game result the board reported before the move, claimable draws included.",
+    "C12": " Also decided: the mate/stalemate verdict (which writes the board's result) is produced only on paths where no move was pushed, and PopMove is the exact inverse of PushMove on everything the board reports, the game result included (R08-inverse re-decided; defect F23), so a halted search hands the board back as received.",
+    "C19": " Also decided (R19-meta, defect F22): some decision in the decoding family depends on both the castling rights and the placement, on both the en-passant square and the placement, and on both the en-passant square and the side to move, and rejects or repairs.",
     "C13": " Also decided: the child window is the exact pre-image of the parent's window under Negate(IncrementMateDistance(.)) on every abstract score region (R13-frame; defect F19), and the negamax discipline of C03 including 'the move loop is left early only on alpha >= beta'.",
-    "C15": " Anchors are role-based (the function started by the launcher, the handle's fields by type and use); the stop tests are recognised in the controller or in a bool helper it consults.",
-    "C16": " Also decided (R16-supersede): a command that halts the engine's search on the way to something else clears the active flag first; goroutines started by the command loop share only variables that are no longer assigned.",
+    "C15": " The time-control clause also requires the divisor of the time split to have a finite upper bound on every path (no int64 wrap-around to zero or below for a huge movestogo; defect F21). Anchors are role-based (the function started by the launcher, the handle's fields by type and use); the stop tests are recognised in the controller or in a bool helper it consults.",
+    "C16": " The noise generator's mutex must be shared by every copy of the generator (not a by-value field of a copied receiver). Also decided (R16-supersede): a command that halts the engine's search on the way to something else clears the active flag first; goroutines started by the command loop share only variables that are no longer assigned.",
     "C18": " Also decided: Engine.Reset replaces board, table and noise generator on every path (a reset engine does not continue a consumed random stream); the stateful SARGON evaluator is re-initialised on every path of its Reset without reading old state; map iteration in search code is order-insensitive by shape.",
     "C20": " Also decided: every narrowing of the plausible-move list after the initial filter is guarded by the castle-ranked flag; the branch-limit cut is made before Selection (helper or inline).",
 }
@@ -228,9 +241,7 @@ for _pid, _t in ADDENDA.items():
         _c = CLAIMED[_pid]
         CLAIMED[_pid] = (_c[0], _c[1] + _t, _c[2], _c[3])
 
-NOT_APPLICABLE = {
-    "C11": "Transparency of the transposition table is a numeric equality between two complete searches over all positions x depths x table sizes x search sequences; no sound static abstraction in reach bounds it. Its shape-visible clauses are decided under C12 (no store after cancellation, exact bound only after a full loop), C04 (root exits) and C17 (slot discipline).",
-}
+NOT_APPLICABLE = {}
 
 PENDING = "static rules designed in DESIGN.md §3 but the checker for this property is not built yet; not claimed until it is"
 
